@@ -174,11 +174,11 @@ def join_condition(join: exp.Join) -> tuple[list[exp.Expr], list[exp.Expr], exp.
             if isinstance(condition, exp.EQ):
                 extract_condition(condition)
     elif normalized(on, dnf=True):
-        conditions: list[exp.EQ] = []
+        conditions: list[exp.EQ] | None = None
 
         for condition in on.flatten():
             parts = [part for part in condition.flatten() if isinstance(part, exp.EQ)]
-            if not conditions:
+            if conditions is None:
                 conditions = parts
             else:
                 temp: list[exp.EQ] = []
@@ -190,7 +190,7 @@ def join_condition(join: exp.Join) -> tuple[list[exp.Expr], list[exp.Expr], exp.
                         temp.extend(cs)
                 conditions = temp
 
-        for condition in conditions:
+        for condition in conditions or []:
             extract_condition(condition)
 
     return source_key, join_key, on
